@@ -60,9 +60,20 @@ func (ev *enumEval) callFn(fn *ssa.Function, argKeys []string) (any, bool) {
 		term := b.Instrs[len(b.Instrs)-1]
 		switch t := term.(type) {
 		case *ssa.Return:
-			if len(t.Results) != 1 {
-				ev.undecided("%s returns %d results", fnName(fn), len(t.Results))
+			if len(t.Results) == 0 {
+				ev.undecided("%s returns no result", fnName(fn))
 				return nil, false
+			}
+			if len(t.Results) > 1 {
+				var tuple []any
+				for _, rv := range t.Results {
+					v, ok := ev.eval(fr, rv)
+					if !ok {
+						return nil, false
+					}
+					tuple = append(tuple, v)
+				}
+				return tuple, true
 			}
 			return ev.eval(fr, t.Results[0])
 		case *ssa.Jump:
@@ -209,6 +220,17 @@ func (ev *enumEval) eval(fr *frame, v ssa.Value) (any, bool) {
 				return found, true
 			}
 			return val, val != nil
+		}
+		if call, ok := x.Tuple.(*ssa.Call); ok {
+			v, ok := ev.eval(fr, call)
+			if !ok {
+				return nil, false
+			}
+			if tuple, isT := v.([]any); isT && x.Index < len(tuple) {
+				return tuple[x.Index], true
+			}
+			ev.undecided("result %d of %s", x.Index, ev.c.key(call, nil))
+			return nil, false
 		}
 	case *ssa.Lookup:
 		_, val, ok := ev.lookup(fr, x)
